@@ -12,12 +12,23 @@ import tlc
 NA = -999999999
 
 
-def write_clim(path, lat, lon, grid, year=2001):
+def write_clim(path, lat, lon, grid, year=2001, levels=None, rng=None):
+    """levels: None for a (time, lat, lon) variable; otherwise the coordinate values of a third dimension 'depth'
+    (or "nocoord": the dimension has no coordinate variable).  The grid is the FIRST level by position (the one the
+    creator uses); the other levels hold other numbers."""
     times = pd.to_datetime(["%d-%02d-15" % (year, m) for m in range(1, 13)])
     v = np.array([[np.nan if x == NA else float(x) for x in row] for row in grid], dtype="float64")
-    data = np.broadcast_to(v, (12,) + v.shape).copy()
-    ds = xr.Dataset({"t": (("time", "lat", "lon"), data)},
-                    coords={"time": times, "lat": np.array(lat, dtype="float64"), "lon": np.array(lon, dtype="float64")})
+    coords = {"time": times, "lat": np.array(lat, dtype="float64"), "lon": np.array(lon, dtype="float64")}
+    if levels is None:
+        data = np.broadcast_to(v, (12,) + v.shape).copy()
+        ds = xr.Dataset({"t": (("time", "lat", "lon"), data)}, coords=coords)
+    else:
+        nlev = 3 if levels == "nocoord" else len(levels)
+        lev = [v] + [np.where(np.isnan(v), 50.0 + k, v * 3 + 17 + k) for k in range(1, nlev)]
+        data = np.broadcast_to(np.stack(lev), (12, nlev) + v.shape).copy()
+        if levels != "nocoord":
+            coords["depth"] = np.array(levels, dtype="float64")
+        ds = xr.Dataset({"t": (("time", "depth", "lat", "lon"), data)}, coords=coords)
     ds.to_netcdf(path, engine="scipy", format="NETCDF3_64BIT")
 
 
@@ -32,13 +43,15 @@ def drive(ctx, sess):
     n_runs = 0
     n_files = 0
 
-    def one_run(creator, lat, lon, grid, bbox):
+    def one_run(creator, lat, lon, grid, bbox, dates=None):
         nonlocal n_runs
         names = ["suspect_min", "suspect_max", "fail_min", "fail_max"]
         exprs = {nm: fx_checks.rand_expr(r, r.choice([0, 1, 2]), atoms) for nm in names}
         start = r.choice(["2020-01-01", "2020-03-10", "2020-11-20", "2021-06-01", "2019-12-15", "2020-02-29"])
         days = r.choice([1, 10, 30, 90, 200, 364])
         end = (pd.Timestamp(start) + pd.Timedelta(days=days)).strftime("%Y-%m-%d")
+        if dates:
+            start, end = dates
         vc = {"variable": "temp", "bbox": [float(v) for v in bbox], "start_time": start, "end_time": end,
               "tests": {"gross_range_test": {nm: fx_checks.render(exprs[nm], False) for nm in names}}}
         e = {"ev": "create", "grid": {"lat": lat, "lon": lon, "v": grid}, "bbox": bbox, "start": start, "end": end,
@@ -60,9 +73,14 @@ def drive(ctx, sess):
         nonlocal n_files
         path = os.path.join(wd, "clim_%d.nc" % n_files)
         n_files += 1
-        write_clim(path, lat, lon, grid)
+        # every third file is a 3d dataset; its levels ascend, descend, are heights below zero, or have no coordinate
+        levels = None if n_files % 3 else r.choice([[0, 10, 20], [100, 50, 0], [-100, -50, -5], [2.5, 10], "nocoord"])
+        write_clim(path, lat, lon, grid, levels=levels)
+        dsc = {"name": "d", "file_path": path, "variables": {"temp": "t"}}
+        if levels is not None:
+            dsc["3d"] = "depth"
         try:
-            return QcConfigCreator(CreatorConfig({"datasets": [{"name": "d", "file_path": path, "variables": {"temp": "t"}}]}))
+            return QcConfigCreator(CreatorConfig({"datasets": [dsc]}))
         except Exception as ex:  # noqa: BLE001
             raise tlc.MachineryError("cannot load synthetic climatology: %r" % ex)
 
@@ -74,10 +92,13 @@ def drive(ctx, sess):
         pool = r.choice([[0, 2], [0, 0, 4], [1, 1, 3], [0, 2, 4, NA], [2, 2, 2], [0], [0, 4, NA], [-1, 1, 3, 5]])
         grid = [[r.choice(pool) for _ in lon] for _ in lat]
         creator = load(lat, lon, grid)
+        # one creator object serves several requests; every other creator gets them all for the same dates (so that only
+        # the bounding box tells the requests apart)
+        same_dates = ("2020-03-10", "2020-04-09") if g % 2 else None
         for b in range(ctx.pick(4, 10)):
             x1, x2 = sorted([r.choice(lon) + r.choice([0, 0, -1]), r.choice(lon) + r.choice([0, 0, 1])])
             y1, y2 = sorted([r.choice(lat) + r.choice([0, 0, -1]), r.choice(lat) + r.choice([0, 0, 1])])
-            one_run(creator, lat, lon, grid, [x1, y1, x2, y2])
+            one_run(creator, lat, lon, grid, [x1, y1, x2, y2], dates=same_dates)
         # (b) cells chosen for the box: half a, half a + 2k inside it (an odd cell is left without data), so that the
         #     population standard deviation is exactly k and every expression can be judged; outside cells are arbitrary
         for b in range(ctx.pick(4, 10)):
